@@ -85,6 +85,12 @@ def jobs(tier):
                     "errcodes": 1,
                 }
             )
+    # re-entrancy: the client may answer before send_produce_request() returns, and the application may submit a new
+    # send from a result handler -- i.e. while the producer is still inside its own dispatch
+    for bt in (0, 10):
+        out.append({"acks": 1, "batch": True, "sym_thresholds": (6, 16), "batch_t": bt, "codec": CODEC_NONE, "api": 0,
+                    "K": 4 if q else 5, "sends": 3, "faults": 0 if q else 1, "max_attempts": 2, "sym_attempts": False, "two_topics": False,
+                    "cancel": False, "stop": False, "variants": 2, "errcodes": 1, "sync": "any", "sync_budget": 1, "resend": True})
     return out
 
 
